@@ -1,5 +1,6 @@
 import PPProofs.Lemmas.EntryMono
 import PPProofs.Lemmas.ParseFwd
+import PPProofs.Lemmas.ParseAdv
 /-!
 # C08 — all parsing entry points agree with one another
 
@@ -138,6 +139,15 @@ theorem scan_sorted_disjoint (p : P) (g : Grammar) (root : Nat) (s : List Char) 
 theorem scan_match_forward (p : P) (hf : Fwd p) (g : Grammar) (root : Nat) (s : List Char) (mm : Nat) (sk ov : Bool)
     (m : Match) (hm : m ∈ (scanString p g root s mm sk ov).ms) : m.start ≤ m.stop :=
   hf _ _ _ _ _ _ (scan_each_is_direct_parse p g root s mm sk ov m hm)
+
+/-- the hypothesis `Fwd` is met by the model parser itself, for every grammar, input and fuel
+    (`parse_adv`: induction over the fuel through every `parseImpl`) -/
+theorem parse_fwd (g : Grammar) (s : List Char) (f : Nat) : Fwd (parse g s f) := parse_adv g s f
+
+/-- … hence, unconditionally: every match scan_string reports for a grammar of the model ends at or after its start -/
+theorem scan_match_forward_parse (g : Grammar) (root : Nat) (s : List Char) (f mm : Nat) (sk ov : Bool)
+    (m : Match) (hm : m ∈ (scanString (parse g s f) g root s mm sk ov).ms) : m.start ≤ m.stop :=
+  scan_match_forward _ (parse_fwd g s f) g root s mm sk ov m hm
 
 theorem scan_max_matches (p : P) (g : Grammar) (root : Nat) (s : List Char) (mm : Nat) (sk ov : Bool) :
     (scanString p g root s mm sk ov).ms.length ≤ mm :=
